@@ -4,6 +4,7 @@ package checks
 
 import (
 	"bytes"
+	"crypto"
 	"crypto/ecdsa"
 	"crypto/ed25519"
 	"crypto/elliptic"
@@ -16,6 +17,7 @@ import (
 	"encoding/pem"
 	"fmt"
 	"math/big"
+	"strings"
 	"testing"
 	"time"
 
@@ -50,6 +52,7 @@ var c16Variants = []string{
 	"signature-by-other-node", "signature-by-unregistered-key", "signature-over-other-binding", "signature-over-other-domain", "signature-missing", "signature-garbage",
 	"domain-altered-after-signing", "domain-other-signed",
 	"key-rsa", "key-ed25519", "key-p384",
+	"registered-rsa-garbage-signature", "registered-rsa-own-signature", "registered-ed25519-garbage-signature", "registered-ed25519-own-signature",
 	"truncated", "length-prefix-short", "length-prefix-long", "not-asn1", "trailing-bytes",
 }
 
@@ -134,7 +137,25 @@ func runC16(t *testing.T, spec RunSpec) *RunResult {
 	}
 	res.ConfigKey = fmt.Sprintf("n=%d domain=%v attacks=%v", cfg.N, cfg.Domain != "", vs)
 	bubble(t, func() {
-		cw := newConnWorld(spec.Seed, cfg.N, cfg.Domain)
+		// two further nodes are registered with identities of unsupported key types (nobody runs them): a peer
+		// presenting such an identity can never give the proof the statement asks for
+		var rsaKey *rsa.PrivateKey
+		var edPriv ed25519.PrivateKey
+		extra := map[int][]byte{}
+		needsForeign := false
+		for _, a := range cfg.Attacks {
+			if strings.HasPrefix(a.Variant, "registered-") {
+				needsForeign = true
+			}
+		}
+		if needsForeign {
+			rsaKey, _ = rsa.GenerateKey(rand.Reader, 2048)
+			extra[90] = selfSigned(&rsaKey.PublicKey, rsaKey)
+			var edPub ed25519.PublicKey
+			edPub, edPriv, _ = ed25519.GenerateKey(rand.Reader)
+			extra[91] = selfSigned(edPub, edPriv)
+		}
+		cw := newConnWorld(spec.Seed, cfg.N, cfg.Domain, extra)
 		w := cw.w
 		trace(spec, res.Cfg, w)
 		sched, ss := scheduler(spec, "uniform")
@@ -146,6 +167,9 @@ func runC16(t *testing.T, spec RunSpec) *RunResult {
 		registered := map[string]map[int][]byte{cfg.Domain: {}}
 		for _, id := range cw.ids {
 			registered[cfg.Domain][id] = cw.parties[id].ident.Cert
+		}
+		for id, pemBytes := range extra {
+			registered[cfg.Domain][id] = pemBytes
 		}
 		unregistered, err := cw.ca.NewClientCertKeyPair() // a certificate of the same CA that nobody registered
 		if err != nil {
@@ -250,6 +274,23 @@ func runC16(t *testing.T, spec RunSpec) *RunResult {
 				sig, _ := ecdsa.SignASN1(rand.Reader, key, d[:])
 				h = base
 				h.Signature = sig
+			case "registered-rsa-garbage-signature":
+				base.Identity = extra[90]
+				h = base
+				h.Signature = prng.Derive(spec.Seed, "rsagarbage").Bytes(64)
+			case "registered-rsa-own-signature":
+				base.Identity = extra[90]
+				h = base
+				d := sha256.Sum256(base.Bytes())
+				h.Signature, _ = rsa.SignPKCS1v15(rand.Reader, rsaKey, crypto.SHA256, d[:])
+			case "registered-ed25519-garbage-signature":
+				base.Identity = extra[91]
+				h = base
+				h.Signature = prng.Derive(spec.Seed, "edgarbage").Bytes(64)
+			case "registered-ed25519-own-signature":
+				base.Identity = extra[91]
+				h = base
+				h.Signature = ed25519.Sign(edPriv, base.Bytes())
 			case "truncated":
 				b := h.Bytes()
 				raw = handshakeFrame(b[:a.Cut%len(b)])
